@@ -132,7 +132,7 @@ func checkC20(c *Ctx) *report.Result {
 		return r
 	}
 	pObj, pPath := c.powerCell()
-	chObjs, _, cerr := c.soundChannels()
+	chObjs, enPaths, cerr := c.soundChannels()
 	if pObj == nil || cerr != "" {
 		r.Fail("unresolved", "P-route", "power flag / channel objects", "", "NR52 does not expose them: "+cerr)
 		return r
@@ -381,6 +381,30 @@ func checkC20(c *Ctx) *report.Result {
 		}))
 		v, _ := sentOn(ev, ch).(*ai.Float)
 		r.Ob("P-route", v != nil && v.Lo == 0 && v.Hi == 0, "nothing routed to the "+sideName[side]+" => sample is 0", where, "sent value "+ai.ValueString(v))
+	}
+
+	// ---- P-silent: a channel that NR52 reports off contributes nothing
+	r.Rule("P-silent", "with a channel's status flag (its NR52 bit) clear the sent values do not depend on any state of that channel; with all four status flags clear both samples are the constant 0, whatever is routed")
+	{
+		for k := 0; k < 4; k++ {
+			k := k
+			ev := c.evalCall(nil, mix, []ai.Value{ptrTo(withOut)}, nil, power(true, func(st *ai.State) {
+				st.SetCell(chObjs[k], enPaths[k], ai.NewConstBool(false))
+			}))
+			for side, ch := range []ai.Value{leftCh, rightCh} {
+				v := sentOn(ev, ch)
+				r.Ob("P-silent", v != nil && !dependsOnGroup(v, groups[k]), fmt.Sprintf("channel %d off => %s sample independent of the channel", k+1, sideName[side]), where, fmt.Sprintf("sent value %s depends on %v", ai.ValueString(v), c.groupDeps(v, groups[k])))
+			}
+		}
+		ev := c.evalCall(nil, mix, []ai.Value{ptrTo(withOut)}, nil, power(true, func(st *ai.State) {
+			for k := 0; k < 4; k++ {
+				st.SetCell(chObjs[k], enPaths[k], ai.NewConstBool(false))
+			}
+		}))
+		for side, ch := range []ai.Value{leftCh, rightCh} {
+			v, _ := sentOn(ev, ch).(*ai.Float)
+			r.Ob("P-silent", v != nil && v.Lo == 0 && v.Hi == 0, "no channel on => "+sideName[side]+" sample is 0", where, "sent value "+ai.ValueString(v))
+		}
 	}
 
 	// ---- P-range
